@@ -37,6 +37,10 @@ def write_events(work, n_data, n_phsp, seed):
             fe = os.path.join(work, "c05_%s_%s.npy" % (name, extra))
             np.save(fe, rng.uniform(lo, hi, size=n))
             files["%s_%s" % (name, extra)] = fe
+        # charge-conjugate events: a deterministic +-1 pattern (every third event, and one more, has charge -1)
+        fc = os.path.join(work, "c05_%s_charge.npy" % name)
+        np.save(fc, np.array([-1.0 if (i % 3 == 1 or i == 0) else 1.0 for i in range(n)]))
+        files["%s_charge" % name] = fc
     return files
 
 
@@ -70,16 +74,29 @@ def card(opt, files):
             data[k] = files[k]
         if nll == "cfit_cached":
             data["cached_amp"] = True
+    charged = bool(opt.get("charged", False))
+    if charged:
+        # the sample carries charges (data_charge / phsp_charge -> charge_conjugation); with the default
+        # cp_trans: True the library mirrors the momenta of the charge -1 events, with cp_trans: False it
+        # swaps the helicity couplings H(l1,l2) -> H(-l1,-l2) in every decay instead
+        data["data_charge"] = [files["data_charge"]]
+        data["phsp_charge"] = [files["phsp_charge"]]
+        if not opt.get("cp_trans", True):
+            data["cp_trans"] = False
+    # charged samples use a card with one parity-violating vertex, so that the helicity swap is visible
+    top_bc = ["R_BC", "D", {"p_break": True}] if charged else ["R_BC", "D"]
     d = {
         "data": data,
         "decay": {
-            "A": [["R_BC", "D"], ["R_BD", "C"], ["R_CD", "B"]],
+            "A": [top_bc, ["R_BD", "C"], ["R_CD", "B"]],
             "R_BC": ["B", "C"],
             "R_BD": ["B", "D"],
             "R_CD": ["C", "D"],
         },
         "particle": {
-            "$top": {"A": {"J": 1, "P": -1, "mass": MASS["A"]}},
+            # charged samples: only the helicities +-1 of the parent (as for a particle produced polarised along z);
+            # otherwise mirroring the momenta of a three-body decay is a rotation and cp_trans would be invisible
+            "$top": {"A": dict({"J": 1, "P": -1, "mass": MASS["A"]}, **({"spins": [-1, 1]} if charged else {}))},
             "$finals": {
                 "B": {"J": 1, "P": -1, "mass": MASS["B"]},
                 "C": {"J": 0, "P": -1, "mass": MASS["C"]},
@@ -250,4 +267,6 @@ def opt_id(opt):
         parts.append("nll=" + opt["nll"])
     if opt["float_shape"]:
         parts.append("floatshape")
+    if opt.get("charged", False):
+        parts.append("charged,cp_trans=%s" % ("T" if opt.get("cp_trans", True) else "F"))
     return ";".join(parts) or "default"
